@@ -44,6 +44,18 @@ type FakeAuth struct {
 	script AuthScript
 	Calls  []string // endpoint names in call order
 	Forms  []url.Values
+	// Fn, when set, answers a call instead of the script (it may block: concurrency choreography).
+	// It runs outside the mutex; returning nil falls back to the script.
+	Fn func(ep string, r *http.Request) *Answer
+}
+
+// SetFn installs (or with nil removes) a per-request answer function.
+func (f *FakeAuth) SetFn(fn func(ep string, r *http.Request) *Answer) {
+	f.mu.Lock()
+	f.Fn = fn
+	f.Calls = nil
+	f.Forms = nil
+	f.mu.Unlock()
 }
 
 func (f *FakeAuth) Set(s AuthScript) {
@@ -84,7 +96,13 @@ func NewFakeAuth() *FakeAuth {
 		default:
 			a = Answer{Status: 404}
 		}
+		fn := f.Fn
 		f.mu.Unlock()
+		if fn != nil {
+			if fa := fn(ep, r); fa != nil {
+				a = *fa
+			}
+		}
 		if a.Status == 0 {
 			hj, ok := w.(http.Hijacker)
 			if ok {
